@@ -84,6 +84,9 @@ def cases(seed, tier):
     for i in range(n_flat):
         out.append({"gen": "flat", "seed": rng.randrange(2 ** 31), "max_size": [6, 4, 8][i % 3], "min_faces": 20 if i % 3 == 0 else 1,
                     "generic": i % 2 == 0, "history": hist[i % 4], "vrows": vr[i % 4], "irows": ir[(i // 4) % 4], "fmt": FORMATS[i % 5]})
+    for i in range(max(8, n_flat // 3)):
+        out.append({"gen": "flat", "seed": rng.randrange(2 ** 31), "max_size": [4, 6][i % 2], "min_faces": 1, "sliver": [1e-2, 2e-3, 5e-4][i % 3],
+                    "generic": True, "history": hist[i % 4], "vrows": vr[i % 4], "irows": ir[(i // 4) % 4], "fmt": FORMATS[i % 5]})
     for i in range(n_poly):
         out.append({"gen": "poly", "seed": rng.randrange(2 ** 31), "max_size": 5, "history": hist[i % 2],
                     "vrows": vr[i % 4], "irows": ir[(i // 4) % 4]})
@@ -349,13 +352,15 @@ def _tri_case(ctx, desc, z, flat):
         ctx.cls("combinator:flip")
     if "~rigid" in z["cls"] or "~sim2d" in z["cls"]:
         ctx.cls("combinator:moved_scaled")
-    if tg["min_sin"] < 0.02:
+    if tg["min_sin"] < (1e-4 if desc.get("sliver") else 0.02):
         ctx.note("skipped_ill_conditioned_triangle")
         return
     # conditioning of every coordinate-difference based quantity: eps * |coordinates| / shortest edge
     lens = R.edge_lengths(V, sorted(want_edges))
     cond = float(np.abs(V).max()) / max(min(lens), 1e-300)
     rel = max(1e-9, 1e3 * EPS * cond)
+    if desc.get("sliver"):
+        rel = max(rel, 1e4 * EPS / tg["min_sin"])  # thin triangles: cotangents and gradients are conditioned like 1 / sin(smallest angle)
     if rel > 1e-6:
         ctx.note("skipped_ill_conditioned_coordinates")
         return
@@ -989,6 +994,15 @@ def run_case(desc, ctx):
         _tri_case(ctx, desc, z, flat=False)
     elif g == "flat":
         z = _zoo(ctx, c08_inputs.planar, desc["seed"], max_size=desc["max_size"], generic=desc["generic"], min_faces=desc.get("min_faces", 1))
+        if desc.get("sliver"):
+            # thin but non-degenerate triangles: an anisotropic squeeze of a planar triangulation (corner angles down to ~1e-3 rad, cotangents up to ~1e3).
+            # Every identity still holds; tolerances are relative to the row norms, which grow with the cotangents.
+            z = dict(z)
+            V = np.array(z["V"], float)
+            V[:, 1] *= desc["sliver"]
+            z["V"] = V
+            z["cls"] = str(z.get("cls", "planar")) + "~sliver"
+            ctx.cls("sliver:%g" % desc["sliver"])
         _tri_case(ctx, desc, z, flat=True)
     elif g == "poly":
         _poly_case(ctx, desc)
